@@ -401,6 +401,32 @@ pub fn run(tier: Tier, seed: u64) -> i32 {
             vals.push(m.next() as u32);
             vals.push(m.below(140000) as u32);
         }
+        // values relative to each base's own geometry: the limits the validation has to get exactly right
+        for bimg in bases.iter() {
+            if let Ok(g) = Geom::derive(&bimg.raw) {
+                let c = g.clusters as u32;
+                let fds = g.first_data_sector as u32;
+                for d in 0..5u32 {
+                    vals.push(c.wrapping_add(d));
+                    vals.push(c.wrapping_sub(d));
+                    vals.push(fds.wrapping_add(d));
+                    vals.push(fds.wrapping_sub(d));
+                    vals.push(fds.wrapping_add(g.spc as u32).wrapping_sub(d));
+                    vals.push((g.tot_sec as u32).wrapping_add(d));
+                    vals.push((g.tot_sec as u32).wrapping_sub(d));
+                    vals.push((g.fatsz as u32).wrapping_add(d));
+                    vals.push((g.fatsz as u32).wrapping_sub(d));
+                }
+                // the smallest total for which the width changes: clusters 4084/4085 and 65524/65525
+                for lim in [4084u64, 4085, 65524, 65525] {
+                    for d in 0..3u64 {
+                        vals.push((g.first_data_sector + lim * g.spc + d) as u32);
+                    }
+                }
+            }
+        }
+        vals.sort();
+        vals.dedup();
         let nf = FIELDS32.len() as u64;
         let nv = vals.len() as u64;
         let total_b = nf * nv * nb * 2;
